@@ -163,22 +163,11 @@ func runC19(c *Ctx) {
 				}
 				bad = "the go statement is not guarded by (atomic increment result) < maxConcurrent"
 				if fi.HasFact(in, func(ft ir.Fact) bool {
-					b, ok := ft.Cond.(*ssa.BinOp)
-					if !ok {
+					lx, ly, strict, ok := lessThanFact(ft)
+					if !ok || !strict {
 						return false
 					}
-					x, y, op := ir.Resolve(b.X), ir.Resolve(b.Y), b.Op
-					if op == token.GTR || op == token.GEQ {
-						x, y = y, x
-						if op == token.GTR {
-							op = token.LSS
-						} else {
-							op = token.LEQ
-						}
-					}
-					if op != token.LSS || !ft.Truth {
-						return false
-					}
+					x, y := ir.Resolve(lx), ir.Resolve(ly)
 					call, isCall := x.(*ssa.Call)
 					if !isCall {
 						return false
